@@ -75,6 +75,10 @@ class WorldEnc:
             return f'(VDate {cZ(int(spec[1]))})'
         if k == 'regex':
             return '(VRegex 0%N)'
+        if k == 'hostfn':
+            if spec[1] not in ('first', 'count'):
+                raise Unencodable(spec[1])
+            return '(VFun (FLib (U "__host%s")))' % spec[1].capitalize()
         if k == 'arr':
             ix = len(self.arrs)
             self.arrs.append(None)
